@@ -186,6 +186,14 @@ structure CWLoop where
   queries : List Vec
   deriving Repr
 
+/-- numpy's C cast on `int_array[j] = float_value`: truncation toward zero. -/
+def truncZero (q : Rat) : Rat := ((Int.tdiv q.num (q.den : Int) : Int) : Rat)
+
+/-- What `work_vector[j] = value` stores: the value itself for a float64 work vector, its
+    truncation when the work vectors inherited an integer dtype from `initial_point`
+    (`x_t = self.current_point.copy()` in experimental `CWMH.step`). -/
+def coerce (intDtype : Bool) (q : Rat) : Rat := if intDtype then truncZero q else q
+
 /-- body of `for j in range(dim)`; `j` is also the index of the target query. -/
 def cwBody (k : Kernel) (logd : Nat → Vec → XVal) (xall : Vec) (ells : List XVal)
     (L : CWLoop) (j : Nat) : CWLoop :=
@@ -204,9 +212,9 @@ def cwPropose (st : St) (z : Vec) : Vec :=
   List.zipWith (fun p q => p.1 + p.2 * q) (List.zip st.x s) z
 
 /-- CWMH.step / CWMH.single_update. Returns new state, acc vector, query points. -/
-def cwStep (k : Kernel) (logd : Nat → Vec → XVal) (st : St) (z : Vec) (ells : List XVal) :
-    St × List Bool × List Vec :=
-  let xall := cwPropose st z
+def cwStep (k : Kernel) (logd : Nat → Vec → XVal) (st : St) (z : Vec) (ells : List XVal)
+    (intDtype : Bool := false) : St × List Bool × List Vec :=
+  let xall := (cwPropose st z).map (coerce intDtype)     -- every use of x_all[j] is an assignment into a work vector
   let L0 : CWLoop := { xt := st.x, xstar := st.x, evalT := st.logd, acc := [], queries := [] }
   let L := (List.range st.x.length).foldl (cwBody k logd xall ells) L0
   ({ st with x := L.xt, logd := L.evalT }, L.acc.reverse, L.queries.reverse)
